@@ -261,6 +261,12 @@ func charCellEvents(id int, sc Scenario, seed int64, rp *spg.CharRecipe) (events
 			cell.Unstable = 1
 			ev.Det = -1
 		}
+		if out.Prefetch || out2.Prefetch {
+			// some read asked for more than one word: the code fetches words ahead of the draws that use them, so which scripted word
+			// served which draw is a matter of luck (this run may line up and its re-run not): no distribution or determinism verdict
+			cell.Unstable = 1
+			ev.Det = -1
+		}
 		// (when only the RE-RUN, fed the same bytes in short chunks, fails to line up, the cell stays decidable from the
 		// fully delivered run, and a differing result is the determinism finding det = 0: the code did not complete a short read)
 		leaves = append(leaves, lf{ev, prod})
